@@ -116,6 +116,27 @@ for g_ in GROUPS:
     mk()
 
 
+for g_ in GROUPS:
+    def mk(g=g_):
+        @obligation(f'C05.{g}.Retr_broadcast', functions=[f'{LT}:LieType.Retr', f'{LT}:LieTensor.Retr', f'{LT}:LieTensor.add'], max_paths=64, timeout=300, first_path_only=True,
+                    note='shape clause (one feasible path): Retr(X, a) = Exp(a) @ X under full broadcasting of the two batch shapes')
+        def retr_b(env):
+            """Retr broadcasts like the product it is defined by - also when X has to be broadcast UP to the batch shape of a"""
+            op = env.load(OPS); pp = env.load('pypose'); T = env.T
+            Xs = [group_elem(env, g, f'X{i}', qregimes=('generic',)) for i in range(2)]
+            As = [alg_elem(env, g, f'a{i}', regimes=('generic',)) for i in range(2)]
+            ex = getattr(op, S.ALG[g] + '_Exp').forward; mul = getattr(op, g + '_Mul').forward
+            item = lambda i, j: mul(ex(As[j]), Xs[i])
+            X1, XB = lie(pp, g, Xs[0]), lie(pp, g, T.stack(Xs, 0))
+            a1, aB = alg(pp, g, As[0]), alg(pp, g, T.stack(As, 0))
+            env.eq('single X, batch of increments: result has the batch shape of a', raw(X1.Retr(aB)), T.stack([item(0, j) for j in range(2)], 0))
+            env.eq('batch of X, single increment', raw(XB.Retr(a1)), T.stack([item(i, 0) for i in range(2)], 0))
+            env.eq('lshape (2,1) against (2,): full broadcasting to (2,2)', raw(lie(pp, g, T.stack(Xs, 0).unsqueeze(1)).Retr(aB)),
+                   T.stack([T.stack([item(i, j) for j in range(2)], 0) for i in range(2)], 0))
+            env.eq('the + operator is the same retraction when shapes agree', raw(XB + aB), T.stack([item(i, i) for i in range(2)], 0))
+    mk()
+
+
 @obligation('C05.Jinvp_is_differential_of_Log', functions=[f'{OPS}:so3_Jl_inv', f'{OPS}:SO3_Log.forward', f'{OPS}:se3_Jl_inv', f'{OPS}:SE3_Log.forward'],
             max_paths=64, timeout=300)
 def jinvp_diff(env):
